@@ -135,6 +135,12 @@ impl Program {
     }
 }
 
+impl crate::ctx::WitnessSrc for Program {
+    fn witness(&self) -> Value {
+        self.to_json()
+    }
+}
+
 pub fn class_from(n: u8) -> MessageClass {
     match n {
         0 => MessageClass::Request,
@@ -193,7 +199,9 @@ pub fn gen_raw_spec(rng: &mut Rng, used: &[u16]) -> AttrSpec {
 /// A program the builder must accept: distinct types, seals in a legal order.
 pub fn gen_program(rng: &mut Rng, max_attrs: usize, many: bool) -> Program {
     let tid = gen_tid(rng);
-    let n = if many { 17 + rng.usize(8) } else { rng.usize(max_attrs + 1) };
+    // "many": every count 9..=40, so that each position around the 16-entry inline capacity is at
+    // some time the last ordinary attribute, the first seal, the second seal ...
+    let n = if many { 9 + rng.usize(32) } else { rng.usize(max_attrs + 1) };
     let mut attrs: Vec<AttrSpec> = vec![];
     let kinds = crate::refimpl::attrs::ordinary_kinds();
     for _ in 0..n {
